@@ -492,6 +492,14 @@ def judgeC14 (o : Obs) : Verdict :=
       -- the iterator always hibernates between two iterations (and before the first): a tick in the
       -- very same turn as the end of the previous body means nobody else could run
       let noYield := (ticks.zip ((e, p.2) :: bodyEnds)).filter (fun tb => tb.1.1.time == tb.2.1.time && tb.1.1.turn == tb.2.1.turn)
+      -- the iterators are endless: the loop ends only by the program's `break` after the requested number of
+      -- iterations, by an exception (IntervalExceeded, ValueError for a negative period) or from outside
+      let wanted := arg e 3
+      let ended := mine.find? (fun q => q.1.tag == "tend")
+      let rejected := (mine.head?).any (fun q => q.1.tag == "caught" && arg q.1 0 == 12)
+      fail (ended.isSome && (ticks.length : Int) < wanted) s!"ticker of {e.label} (period {period}) ended by itself after {ticks.length} of {wanted} iterations" ++
+      fail (period ≥ 0 && rejected) s!"ticker of {e.label}: the non-negative period {period} was rejected with ValueError" ++
+      fail (period < 0 && (!ticks.isEmpty || ended.isSome)) s!"ticker of {e.label}: the negative period {period} was not rejected" ++
       fail (!noYield.isEmpty) s!"ticker of {e.label} (period {period}) resumed its body at {noYield.map (·.1.1.time)} without letting other activities run" ++
       if isInt then
         (ticks.zipIdx.flatMap (fun t => fail (t.1.1.time != e.time + period * ((t.2 + 1 : Nat) : Rat))
@@ -912,7 +920,10 @@ def judgeC13 (o : Obs) (pipes : List (Option Rat)) : Verdict :=
       | none => { st with out := st.out ++ [s!"activity {e.label}: {e.tag} without a transfer"] }
       | some x =>
         let st := { st with active := st.active.filter (·.id != e.label) }
-        if e.tag == "tdone" then
+        if e.tag == "tabort" && e.time == x.started && e.turn == (((idx o).find? (fun q => q.1.tag == "tstart" && q.1.label == e.label && q.1.time == x.started)).map (·.1.turn)).getD 0 then
+          -- (cancellations and deadlines reach a transfer at a suspension point, i.e. in a later turn)
+          { st with out := st.out ++ [s!"transfer of activity {x.id} (volume {x.total}, limit {x.limit}) was refused at once although its arguments are valid"] }
+        else if e.tag == "tdone" then
           { st with out := st.out ++ (
               fail (x.remaining > pipeTol x) s!"transfer of activity {x.id} (volume {x.total}, limit {x.limit}, started at {x.started}) completed at {e.time} but only {x.total - x.remaining} of its volume fits the shared rates until then" ++
               fail (x.limit == 0 && e.time != x.started) s!"zero-volume / unlimited transfer of activity {x.id} took from {x.started} to {e.time}") }
